@@ -1289,6 +1289,8 @@ def check(tier, seed):
         'selector_cases': len(sel_items),
         'exhaustive': False,
     })
+    from harness import wqueue
+    wqueue.run_pass(run, tier, seed)  # replies reach the helper in command order: the API write queue
     if run.broken() and not run.failing:
         run.coverage['search'] = f'{len(cases)} intake schedules and {ncmd} executed commands judged by the property oracle; none failed'
     return run.finish(checker_cmd='make -C coq props/Prop_C14.vo && coqc -Q coq ExaV coq/props/Prop_C14.v (Print Assumptions)')
